@@ -143,6 +143,48 @@ spec fn violates_bound(type_params: Seq<TypeParameterSignature>, subst_map: Map<
       type_system::assignable(*lower, *upper) ==> final(cx).error_set.count() == old(cx).error_set.count(),
 //@end
 
+// ---- a type argument solved from a function-type hint is validated like any other (R14 block of
+// check_member_with_unresolved_tparams)
+mod solver {
+  use super::*;
+  pub struct TypeConstraintSolution { pub solved_substitution: HashMap<PStr, Arc<Type>>, pub solved_generic_type: Arc<Type> }
+}
+#[verifier::external_body]
+struct MethodTypeInfo { _p: u8 }
+impl MethodTypeInfo {
+  /// R3: the fields `type_parameters` and `Type::Fn(type_.clone())` of the opaque member signature
+  uninterp spec fn tparams(&self) -> Seq<TypeParameterSignature>;
+  #[verifier::external_body]
+  fn type_parameters(&self) -> (r: &Vec<TypeParameterSignature>) ensures r@ == self.tparams() { unimplemented!() }
+  #[verifier::external_body]
+  fn fn_type(&self) -> (r: Type) { unimplemented!() }
+}
+/// the solver is opaque: it returns some substitution
+#[verifier::external_body]
+fn solve_type_constraints(concrete: &Type, generic: &Type, type_parameters: &Vec<TypeParameterSignature>, error_set: &mut ErrorSet) -> (r: solver::TypeConstraintSolution)
+  ensures final(error_set).count() >= old(error_set).count()
+{ unimplemented!() }
+
+//@extractblock crates/samlang-checker/src/main_checker.rs :: fn check_member_with_unresolved_tparams
+//@from let type_system::TypeConstraintSolution { solved_generic_type, solved_substitution } = type_system::solve_type_constraints(
+//@to validate_type_arguments(cx, &method_type_info.type_parameters, &solved_substitution);
+//@replace type_system::TypeConstraintSolution { solved_generic_type, solved_substitution } => solver::TypeConstraintSolution { solved_generic_type, solved_substitution } ## R1: module path of the reduced solution type
+//@replace type_system::solve_type_constraints( => solve_type_constraints( ## R1: module path of the opaque solver
+//@replace &Type::Fn(method_type_info.type_.clone()), => &method_type_info.fn_type(), ## R3: the function type of the opaque member signature
+//@replace* &method_type_info.type_parameters => method_type_info.type_parameters() ## R3: field of the opaque member signature
+//@wrap fn solve_from_hint_and_validate(cx: &mut TypingContext, hint: &Type, method_type_info: &MethodTypeInfo) -> (r: (HashMap<PStr, Arc<Type>>, Arc<Type>))
+//@contract
+    requires
+      vstd::std_specs::hash::obeys_key_model::<PStr>(),
+    ensures
+      final(cx).error_set.count() >= old(cx).error_set.count(),
+      // whatever the solver chose: a chosen type argument that violates its parameter's bound is reported
+      (exists|k: int| 0 <= k < method_type_info.tparams().len() && violates_bound(method_type_info.tparams(), r.0@, k))
+        ==> final(cx).error_set.count() > old(cx).error_set.count(),  // :type_arguments_solved_from_a_hint_are_validated_against_their_bounds
+//@atend
+  (solved_substitution, solved_generic_type)
+//@end
+
 proof fn canary_must_fail_checkgates() ensures false {}
 
 } // verus!
